@@ -60,7 +60,11 @@ def gen_sets(rng, degenerate, masked):
         if ok:
             break
     valid = [[(0 if (masked and rng.random() < 0.35) else 1) for _ in range(n)] for _ in range(3)]
-    return {"shape": shape, "masked": masked, "kinds": kinds,
+    scale = 1.0
+    if not degenerate and rng.random() < 0.4:                    # the same geometry at another scale (an exact power of two): lengths scale, angles do not
+        scale = rng.choice([2.0 ** -7, 2.0 ** -10, 2.0 ** -13, 2.0 ** 6])
+        p = [(q * np.float32(scale)).astype(np.float32) for q in p]
+    return {"shape": shape, "masked": masked, "kinds": kinds, "scale": scale,
             "sets": [{"data": pc.f32_to_bits(p[j].reshape(-1)), "valid": valid[j]} for j in range(3)]}
 
 
@@ -83,6 +87,11 @@ def reference(case):
 TOLS = {"distance": 2e-4, "angle": 2e-4, "inner_angle": 5e-4, "point_line": 2e-3}
 
 
+def atol_of(name, case):
+    """absolute tolerance: lengths are compared relative to the scale of the geometry, angles are scale-free"""
+    return TOLS[name] * (case.get("scale", 1.0) if name in ("distance", "point_line") else 1.0)
+
+
 def run(ctx):
     rng = ctx.rng
     tf_cases, tf_meta = [], []
@@ -98,7 +107,7 @@ def run(ctx):
         allv = np.ones(n, dtype=bool)
         info = {"case": case, "mode": mode}
         nontrivial = mode != "formula"
-        ctx.evaluated(json.dumps(case), nontrivial=True); ctx.count("mode:" + mode); ctx.count("dims:%d" % D)
+        ctx.evaluated(json.dumps(case), nontrivial=True); ctx.count("mode:" + mode); ctx.count("dims:%d" % D); ctx.count("scale:%g" % case.get("scale", 1.0))
         for k in case["kinds"]:
             ctx.count("tuple:" + k)
         results = {"torch": reprexec.run_modules(case, "torch"), "numpy": reprexec.run_modules(case, "numpy")}
@@ -140,7 +149,7 @@ def run(ctx):
                 if not mode.startswith("degenerate"):
                     w = ref[name]
                     okv = valid
-                    if not np.allclose(vals[okv], w[okv], rtol=TOLS[name], atol=TOLS[name]):
+                    if not np.allclose(vals[okv], w[okv], rtol=TOLS[name], atol=atol_of(name, case)):
                         i = int(np.argmax(np.abs(vals - w) * okv))
                         bad("a representation differs from its textbook formula", dict(info, backend=be), {"representation": name, "got": float(vals[i]), "want": float(w[i]), "index": i}, sig)
     # ---- tensorflow, and agreement between the backends on the same unmasked input
@@ -153,9 +162,9 @@ def run(ctx):
             if "error" in r:
                 bad("a representation raises on a well-shaped input", dict(info, backend="tf"), {"representation": name, "error": r["error"]}, sig); continue
             vals = reprexec.unb(r["values"])
-            if not np.allclose(vals, ref[name], rtol=TOLS[name], atol=TOLS[name]):
+            if not np.allclose(vals, ref[name], rtol=TOLS[name], atol=atol_of(name, case)):
                 bad("a representation differs from its textbook formula", dict(info, backend="tf"), {"representation": name, "got": vals[:4].tolist(), "want": ref[name][:4].tolist()}, sig); continue
-            if name in tor and "values" in tor[name] and not np.allclose(vals, reprexec.unb(tor[name]["values"]), rtol=TOLS[name], atol=TOLS[name]):
+            if name in tor and "values" in tor[name] and not np.allclose(vals, reprexec.unb(tor[name]["values"]), rtol=TOLS[name], atol=atol_of(name, case)):
                 bad("torch and tensorflow disagree on a representation", info, {"representation": name}, {"representation": name})
     mouts = ctx.driver.run(model_reqs) if model_reqs else []
     for (info, tor), mo in zip(model_meta, mouts):
@@ -173,7 +182,7 @@ def run(ctx):
                 for s_ in case["sets"][:nsets]:
                     valid &= np.array(s_["valid"], dtype=bool)
             cmp = regular | ~valid                                     # degenerate tuples: NaN → 0 decisions depend on float32 rounding
-            if not np.allclose(got[cmp], mv[cmp], rtol=TOLS[name], atol=TOLS[name], equal_nan=True) or (mv[~valid] != 0).any():
+            if not np.allclose(got[cmp], mv[cmp], rtol=TOLS[name], atol=atol_of(name, case), equal_nan=True) or (mv[~valid] != 0).any():
                 ctx.violation("a representation differs from its model", dict(info, representation=name), {"got": got[cmp][:4].tolist(), "model": mv[cmp][:4].tolist()}, False); break
     assembled(ctx, bad)
 
